@@ -1,5 +1,5 @@
 #!/usr/bin/env python3
-"""store_round.py <round> <mutroot> <firsttry.txt> <final-eval.log>
+"""store_round.py <round> <mutroot> <firsttry.txt> <final-eval.log> [older-eval.log ...]
 
 Copies the confirmed mutants of one round from <mutroot>/store/<key>/ into /verif/seeded/r<round>-<key>/
 (patch.diff, patch_original.diff when the patch had to be rebased onto later repo fixes, the demonstration
@@ -12,6 +12,7 @@ final-eval.log: output of the evaluation loop run with the final harnesses (line
 import json, os, re, shutil, sys
 
 rnd, root, firsttry, final = sys.argv[1:5]
+older = sys.argv[5:]
 store = os.path.join(root, "store")
 ft = {}
 for line in open(firsttry):
@@ -20,6 +21,24 @@ for line in open(firsttry):
         continue
     key = parts[0].rstrip(":")
     ft[key] = line.strip()
+def labels_of(path):
+    out = {}
+    for line in open(path, errors="replace"):
+        m = re.match(r"\s+(C\d\d[A-Z]):\s+violation: ([^ ]+)", line)
+        if m:
+            sig = m.group(2).split("|")
+            lab = sig[0] + " " + (sig[2] if sig[1] == "assert" else sig[1] + " in " + sig[2].split(":")[-1])
+            out.setdefault(m.group(1), [])
+            if lab not in out[m.group(1)]:
+                out[m.group(1)].append(lab)
+    return out
+
+
+old_labels = {}
+for o in older:
+    for k, v in labels_of(o).items():
+        old_labels.setdefault(k, [])
+        old_labels[k] += [x for x in v if x not in old_labels[k]]
 fin, cur = {}, None
 for line in open(final, errors="replace"):
     m = re.match(r"\s+(C\d\d[A-Z]): (C\d\d) exit=(\d+) (\d+)s viol=(\d+) inconcl=(\d+)", line)
@@ -58,7 +77,9 @@ for key in sorted(os.listdir(store)):
     meta["checked_with"] = "/verif/tools/trymutant2.sh /verif/seeded/r%s-%s/patch.diff %s" % (rnd, key, meta.get("property"))
     meta["caught_on_first_try"] = first_caught
     if f is None or f["exit"] == -1:
-        status = "not evaluated in the final run (patch does not apply to the repaired tree: %s)" % ("duplicate of an earlier seeded change" if not confirmed or True else "")
+        status = "not evaluated in the final run: the patch no longer applies to the repaired tree (a later repair rewrote the code it changes)"
+        if old_labels.get(key):
+            status += "; when it still applied it was caught by " + "; ".join(old_labels[key][:3])
         meta["caught_by"] = status
     elif f["viol"] > 0:
         meta["caught_by"] = "; ".join(f["by"][:3])
